@@ -45,16 +45,14 @@ def handleGMDatavector (req : Json) : Except String Json := do
   let pots : CliqueVec LogQ ← decCliqueVec (← req.getObjVal? "pots")
   let total : ExtQ ← Codec.dec (← req.getObjVal? "total")
   -- log-space part in LogQ, the final `* wgt * total` in plain arithmetic
-  match cliques.map pots.get with
-  | [] => throw "raise"
-  | p :: ps =>
-    let logp := ps.foldl Factor.add p
-    let ans := (logp.subScalar logp.logsumexpAll).exp
-    let flat := (ans.expand dom).vals.data.toList
-    let wgtNum : ExtQ := .fin (ans.dom.size : Rat)
-    let wgtDen : ExtQ := .fin (dom.size : Rat)
-    let wgt := ExtQ.div wgtNum wgtDen
-    pure (Json.mkObj [("vec", encList (flat.map (fun v => ExtQ.mul (ExtQ.mul v.v wgt) total)))])
+  if cliques.isEmpty then throw "raise"
+  let core := datavectorCore dom cliques pots
+  let covered := (cliques.foldl JT.union []).length
+  let csize : Nat := dom.sizeOf (dom.canonical (cliques.foldl JT.union []))
+  let _ := covered
+  let wgt := ExtQ.div (.fin (csize : Rat)) (.fin (dom.size : Rat))
+  let flat := core.vals.data.toList.map (·.v)
+  pure (Json.mkObj [("vec", encList (datavectorScale flat wgt total))])
 
 end PGM.Driver
 
